@@ -181,6 +181,8 @@ def check(model: Model, tier: str):
     # of different bond sizes (or broadcasts a bond) does not compute the quotient
     obs += [o for o in e5ob.unification_obligations(model, tier, only_funcs=("_tt_base.TT.__truediv__", "_tt_base.TT.__rtruediv__")) if o.rule == "E5-UNIFY"]
     obs += type_body(model, "_division.amen_divide")
+    from ..normguard import rule_train_init
+    obs += rule_train_init(model, "_division.amen_divide")
     obs += rule_defattr(model, "torchtt._division.LinearOp")
     eng = Effects(model)
     from .c06 import EXCEPTIONS, verify_amen_divide_exception
